@@ -5,6 +5,7 @@ import (
 	"go/constant"
 	"go/token"
 	"go/types"
+	"reflect"
 	"unicode/utf8"
 
 	"golang.org/x/tools/go/ssa"
@@ -370,6 +371,11 @@ func (fr *frame) lookup(instr *ssa.Lookup) value {
 			return tuple{v, p.tc.Bool(found)}
 		}
 		return v
+	}
+	if h, ok := x.(host); ok && h.v != nil {
+		if m := reflect.ValueOf(h.v); m.Kind() == reflect.Map {
+			return p.hostMapLookup(m, fr.get(instr.Index), instr.CommaOk)
+		}
 	}
 	p.unsupported(fmt.Sprintf("lookup on %T", x))
 	return nil
